@@ -483,3 +483,56 @@ Section C08.
     destruct (Hsn T k HTk) as [_ Hle]. lia.
   Qed.
 End C08.
+
+(* ------------------------------------------------------------------ *)
+(** * A run, and why an acknowledgement must echo a request recorded before it *)
+
+(* leader 1 commits index 2 in term 1 ([sc] of P/LogProofs.v), a read is requested with
+   context 5, nodes 2 and 3 acknowledge, the read is answered with index 2 *)
+Definition read_sc : list rlabel :=
+  map RLog sc ++ [RReadReq 1 5; RHbAck 2 1 1 5; RHbAck 3 1 1 5; RReadServe 1 5].
+
+Lemma read_sc_runs :
+  exists s, rrun [1;2;3] [] read_sc rinit = Some s /\
+    pr_served s = [(1, 1, 5, 2%nat)] /\ pr_reqs s = [(1, 1, 5, 2%nat, [(1, 2%nat)])].
+Proof. eexists. split; [vm_compute; reflexivity|]. vm_compute. auto. Qed.
+
+(* the acknowledgement rule WITHOUT the guard "the request exists already" *)
+Definition rrule_early_ack (inc out : list N) (l : rlabel) (s : rst) : option rst :=
+  match l with
+  | RHbAck q c t ctx =>
+      let p := nodes (el (pr_lg s)) q in
+      if p_up p && (p_term p =? t) && negb (q =? c)
+      then Some (mkRS (pr_lg s) (pr_reqs s) ((q, c, t, ctx) :: pr_hacks s) (pr_served s))
+      else None
+  | _ => rrule inc out l s
+  end.
+
+Fixpoint rrun_early_ack (inc out : list N) (ls : list rlabel) (s : rst) : option rst :=
+  match ls with
+  | [] => Some s
+  | l :: rest => match rrule_early_ack inc out l s with
+                 | Some s' => rrun_early_ack inc out rest s' | None => None end
+  end.
+
+(* node 2 acknowledges context 5 of leader 1 (term 1) before any such request; node 3 is
+   elected in term 2 and commits index 3 with node 2; only then the partitioned leader 1
+   records a read with context 5 and answers it, with index 2, on the strength of the old
+   acknowledgement *)
+Definition early_ack_attack : list rlabel :=
+  map RLog sc ++ [RHbAck 2 1 1 5] ++
+  map RLog
+    [LAdopt 3 2; LEl (LCampaign 3); LEl (LImage 3); LEl (LFsync 3); LEl (LReleaseReq 3 2);
+     LEl (LGrant 2 3 2); LEl (LImage 2); LEl (LFsync 2); LEl (LReleaseGrant 2 2);
+     LEl (LRecvGrant 3 2); LEl (LBecomeLeader 3); LLogImage 3; LLogFsync 3;
+     LAdopt 2 3; LMkAck 2 3%nat; LLogImage 2; LLogFsync 2; LRelAck 2 2 3%nat; LCommitL 3 3%nat] ++
+  [RReadReq 1 5; RReadServe 1 5].
+
+Lemma early_ack_unsafe :
+  exists s, rrun_early_ack [1;2;3] [] early_ack_attack rinit = Some s /\
+    pr_served s = [(1, 1, 5, 2%nat)] /\ l_commit (ln (pr_lg s) 3) = 3%nat /\
+    pr_reqs s = [(1, 1, 5, 2%nat, [(2, 3%nat); (1, 2%nat)])].
+Proof. eexists. split; [vm_compute; reflexivity|]. vm_compute. auto. Qed.
+
+Lemma guarded_ack_rejects_attack : rrun [1;2;3] [] early_ack_attack rinit = None.
+Proof. vm_compute. reflexivity. Qed.
